@@ -25,15 +25,26 @@ SPEC = dict(
          'existing prefixes are directories), only directories at or below the first missing component may appear; unlink result as expected, a removed tree is gone, everything outside '
          'it is byte-identical; Directory::exists on the argument of every create / unlink call agrees with stat afterwards. non-trivial = a tree containing symbolic links was removed and a '
          'create was checked. Entry names: in 3 tree cases of 4 every second entry (file, directory, symbolic link, FIFO, hard link; at any depth) and the new components of created paths have a '
-         'name starting with dots ("..data", "...", "..a", "..2024_03_01", ".hidden", "..3", "...1", ".. 2"); in 3 files / files-alias cases of 8 the three file names are such names.',
+         'name starting with dots ("..data", "...", "..a", "..2024_03_01", ".hidden", "..3", "...1", ".. 2"); in 3 files / files-alias cases of 8 the three file names are such names. '
+         'create-race (added for the class "a racing creator/remover between the library\'s system calls"): case = one Directory::create scenario (0..2 existing base directories, optionally reached '
+         'through a symbolic link; 1..4 missing components; spelling plain / absolute / trailing separator / "./" and "x/../" detour / double separator; nothing, the existing target, a file or a '
+         'dangling link in the way); it is run once undisturbed, which counts its n stat/lstat/access/opendir/mkdir/rmdir calls through the libc shims, and then on a rebuilt identical state once per '
+         '(action, k): immediately before the k-th of those calls the shim itself plays another process that creates the very path the call is about to look at or make, creates the whole target, '
+         'creates the parent of that path, creates the first missing component (every k = 1..n), places a regular file at that path, removes that path or removes its (empty) parent (about 3 seeded '
+         'k each). Oracle unchanged: result == stat says directory afterwards, every component exists when true, Directory::exists agrees, only directories at or below the first missing component '
+         'appear, and - as long as the other process only added directories and every existing prefix is a directory - the call must succeed. non-trivial = at least one interference changed the '
+         'file system. create-threads: 10 rounds per case in which 4 threads released by a spin barrier call Directory::create on the same deep path / on siblings below a shared missing parent / on one '
+         'new name / on prefixes of one chain; nothing is ever removed, so every call must return true and its directory must exist (schedule-dependent supplement; a correct library passes under every schedule).',
     assumptions=['ext4 scratch directory /verif/.work/<pid> (d_type always set); the checks run as root, so permission failures are represented only by injected EACCES',
                  'lexical equivalence treats "/" and "\\" as separators, "" as ".", and "/.." as "/"; paths with ":" (Windows drives) are not generated',
                  'getRelativePath: for inputs without a lexical answer (absolute/relative mix, unresolvable ".." left in from) only an empty result or a correct one is accepted',
                  'a directory entry whose name merely starts with "." or ".." ("..data", "...") is an ordinary entry; only the names "." and ".." themselves are special',
                  'copying a file onto itself and renaming a directory with File::rename are outside the statement and not generated',
                  'an injected failure of lseek is only used for seek()/size()/readAll(), never inside open()/copy() (not a realistic failure of a regular file)',
+                 'create-race: the other process acts only at the library\'s own libc calls of the traced family (stat, lstat, access, opendir, mkdir, rmdir, unlink and their *at/64/statx variants); '
+                 'a library whose verdict does not come from its last such call is outside what the removing interferences can judge (the creating ones are monotone and need no such assumption)',
                  'ASan/UBSan red zones; library ASSERTs enabled (-DDEBUG)'],
-    technique='runtime monitoring: reference path algebra, inode/byte model + libc read-back, libc failpoints, before/after file-system snapshots',
+    technique='runtime monitoring: reference path algebra, inode/byte model + libc read-back, libc failpoints, before/after file-system snapshots, enumerated interference (racing creator/remover) injected at the libc boundary, concurrent callers',
     exhaustive={Q: False, T: False},
     jobs=[
         job('paths-str', 'h_fs', 'paths-str', sources=_SRC, cases=-1, scale={Q: 8, T: 10}, procs=16),
@@ -43,6 +54,8 @@ SPEC = dict(
         job('files', 'h_fs', 'files', sources=_SRC, cases={Q: 4800, T: 100000}, procs=16),
         job('files-alias', 'h_fs', 'files-alias', sources=_SRC, cases={Q: 3200, T: 60000}, procs=16),
         job('trees', 'h_fs', 'trees', sources=_SRC, cases={Q: 1920, T: 40000}, procs=16),
+        job('create-race', 'h_fs', 'create-race', sources=_SRC, cases={Q: 320, T: 12000}, procs=16),
+        job('create-threads', 'h_fs', 'create-threads', sources=_SRC, cases={Q: 48, T: 1600}, procs=4),
     ],
     floors={Q: dict(path_inputs=500000, cmp_relative=100000, rel_answers=50000, ops=100000, bytes_compared=100000000, ops_with_injected_failure=5000, trees_removed=800,
                     symlinks_inside_removed_trees=1000, snapshot_entries_compared=80000, create_true=1000, create_false=500,
@@ -51,6 +64,9 @@ SPEC = dict(
                     tree_entries_built_with_dotdot_prefixed_name=6000, tree_entries_built_with_dot_prefixed_name=3000, dotdot_prefixed_names_inside_removed_trees=1500,
                     dot_prefixed_names_inside_removed_trees=800, trees_removed_containing_dotdot_prefixed_names=500, creates_with_dot_prefixed_components_true=800,
                     file_cases_with_dot_prefixed_names=2000, op_exists_dir=5000,
+                    race_trials=5000, race_interference_done=2000, race_creator_interference_done=1600, race_directory_made_between_check_and_mkdir=600,
+                    race_creator_interference_with_creatable_target=500, race_remover_interference_done=200, race_file_interference_done=150, concurrent_create_calls=1900,
+                    **{'set:race_points': 12, 'set:race_scenarios': 20, 'set:concurrent_create_classes': 4},
                     **{'set:dotdot_prefixed_entry_types_built': 5, 'set:dotdot_prefixed_entry_types_removed': 4, 'set:file_leaf_names': 12},
                     **{'set:create_classes': 9, 'set:unlink_classes': 8, 'set:injected_functions': 8, 'set:rel_classes': 8, 'set:alias_spellings': 7,
                        'set:rename_missing_alias_pairs': 56, 'set:rename_existing_alias_pairs': 40}),
@@ -61,6 +77,9 @@ SPEC = dict(
                     tree_entries_built_with_dotdot_prefixed_name=120000, tree_entries_built_with_dot_prefixed_name=60000, dotdot_prefixed_names_inside_removed_trees=30000,
                     dot_prefixed_names_inside_removed_trees=16000, trees_removed_containing_dotdot_prefixed_names=10000, creates_with_dot_prefixed_components_true=16000,
                     file_cases_with_dot_prefixed_names=40000, op_exists_dir=100000,
+                    race_trials=180000, race_interference_done=75000, race_creator_interference_done=60000, race_directory_made_between_check_and_mkdir=22000,
+                    race_creator_interference_with_creatable_target=18000, race_remover_interference_done=7500, race_file_interference_done=5500, concurrent_create_calls=60000,
+                    **{'set:race_points': 13, 'set:race_scenarios': 24, 'set:concurrent_create_classes': 4},
                     **{'set:dotdot_prefixed_entry_types_built': 5, 'set:dotdot_prefixed_entry_types_removed': 4, 'set:file_leaf_names': 12},
                     **{'set:create_classes': 9, 'set:unlink_classes': 8, 'set:injected_functions': 8, 'set:rel_classes': 8, 'set:alias_spellings': 7,
                        'set:rename_missing_alias_pairs': 56, 'set:rename_existing_alias_pairs': 56})},
